@@ -10,7 +10,8 @@ import os
 
 import vlib
 
-PROPS = ['Rangers.Props.C14', 'Rangers.Props.C14E', 'Rangers.Props.C14U', 'Rangers.Props.C14G']
+PROPS = ['Rangers.Props.C14', 'Rangers.Props.C14E', 'Rangers.Props.C14U', 'Rangers.Props.C14G',
+         'Rangers.Props.C14W']
 DRIVERS = ['C14']
 META = dict(
     level='proof',
